@@ -530,6 +530,15 @@ impl HybridRunner {
                     Some(Err(_)) => -1,
                 };
             }
+            "clear" => {
+                self.truth.clear();
+                let r = self.drive(Box::pin(cache.clear()));
+                res = match r {
+                    None => -2,
+                    Some(Ok(())) => 0,
+                    Some(Err(_)) => -1,
+                };
+            }
             "evict_all" => {
                 let _g = self.rt.enter();
                 cache.memory().evict_all();
@@ -593,7 +602,9 @@ impl HybridRunner {
             ),
             None => (vec![0; self.keys.len()], vec![0; self.keys.len()]),
         };
-        json!({"res": res, "enq": enq, "wr": wr, "mem": mem, "dsk": dsk})
+        let log = self.gate.entries_from(0);
+        let pend = self.gate.pending().iter().any(|i| log[*i].write) as u8;
+        json!({"res": res, "enq": enq, "wr": wr, "pend": pend, "mem": mem, "dsk": dsk})
     }
 }
 
